@@ -91,7 +91,7 @@ func (w *cluster3) planHTTP(op simkit.Op, timeout time.Duration) *c08Plan {
 	rq.Endpoint = endpointOf(rq.HostHdr, rq.Header.Get("x-piko-endpoint"))
 	// end-to-end headers
 	for i, n := 0, r.Intn(5); i < n; i++ {
-		switch r.Intn(7) {
+		switch r.Intn(8) {
 		case 0:
 			rq.Header.Add("X-Custom", fmt.Sprintf("v%d", r.Intn(100)))
 			rq.Header.Add("X-Custom", fmt.Sprintf("w%d", r.Intn(100)))
@@ -107,6 +107,10 @@ func (w *cluster3) planHTTP(op simkit.Op, timeout time.Duration) *c08Plan {
 			rq.Header.Set("X-Forwarded-For", "203.0.113.7")
 		case 6:
 			rq.Header.Set("User-Agent", "verif/1.0 (sim)")
+		case 7:
+			// a non-WebSocket Upgrade offer (what "curl --http2" sends in clear text);
+			// hop-by-hop, so the upstream does not see it, and not exempt from the timeout
+			rq.Header.Set("Upgrade", []string{"h2c", "TLS/1.0"}[r.Intn(2)])
 		}
 	}
 	if rq.Method == "POST" || rq.Method == "PUT" || rq.Method == "PATCH" || (rq.Method == "DELETE" && r.Intn(3) == 0) {
@@ -299,6 +303,9 @@ func (w *cluster3) judgeHTTP(p *c08Plan, res *httpResult, timeout, writeTO time.
 	}
 	for k, vs := range sent {
 		got := rec.Header[k]
+		if k == "Upgrade" {
+			continue // hop-by-hop
+		}
 		if k == "X-Forwarded-For" {
 			// the proxy appends the client address(es)
 			if len(got) == 0 || !strings.HasPrefix(strings.Join(got, ", "), vs[0]) {
